@@ -210,7 +210,10 @@ def enabledTask (c : Cfg) (s : State) (t : TaskId) : Bool :=
 /-- the internal write step of `t`, if that is what `t` does next -/
 def autoWrite (c : Cfg) (s : State) (t : TaskId) : State :=
   match s.pc t with
-  | .dWrite k _ => (step c s t (.write k)).getD s
+  | .dWrite k _ =>
+    match step c s t (.write k) with
+    | some s' => s'
+    | none => s
   | _ => s
 
 def replay (c : Cfg) : State → Nat → List (TaskId × Event) → Except (Nat × String) State
